@@ -171,6 +171,8 @@ pub struct NetInner {
     rng: Rng,
     ordinals: HashMap<(SocketAddr, SocketAddr), u64>,
     kind_drops: HashMap<(SocketAddr, SocketAddr), u32>,
+    /// destination connection id of the first long-header packet seen (the connection's original DCID)
+    first_dcid: Option<Vec<u8>>,
     pub sent: Vec<WireEvent>,
     pub delivered: Vec<DeliveryEvent>,
     pub keep_log: bool,
@@ -281,6 +283,7 @@ impl SimNet {
             rng: Rng::new(seed),
             ordinals: HashMap::new(),
             kind_drops: HashMap::new(),
+            first_dcid: None,
             sent: vec![],
             delivered: vec![],
             keep_log: true,
@@ -370,8 +373,15 @@ impl SimNet {
         }
     }
 
+    pub fn first_dcid(&self) -> Option<Vec<u8>> {
+        self.0.lock().unwrap().first_dcid.clone()
+    }
+
     fn send(&self, src: SocketAddr, dst: SocketAddr, data: &[u8]) {
         let mut g = self.0.lock().unwrap();
+        if g.first_dcid.is_none() && data.len() > 6 && data[0] & 0x80 != 0 && data.len() >= 6 + data[5] as usize {
+            g.first_dcid = Some(data[6..6 + data[5] as usize].to_vec());
+        }
         let now = Instant::now();
         let t = now - g.start;
         let ord = {
